@@ -137,7 +137,7 @@ def characterizeAll : List PDesc â†’ (nonStatic : List Ty) â†’ Option (List CP Ã
     | none => none
     | some c0 =>
       let c? :=
-        if c0.group == .staticGroup && c0.inp.any nonStatic.contains then characterize p isLast false
+        if c0.group == .staticGroup && c0.inp.any (fun t => t != tUnused && nonStatic.contains t) then characterize p isLast false
         else some c0
       match c? with
       | none => none
@@ -154,7 +154,7 @@ def debugCP : CP :=
 
 def unusedInCP : CP :=
   { id := 901, cls := .literalValue, group := .literalGroup, out := [tUnused], nonFinal := true, synthetic := true,
-    shun := true, consOpt := [tUnused], hasConsOpt := true }
+    shun := false, consOpt := [tUnused], hasConsOpt := true }
 
 def unusedRetCP : CP :=
   { id := 902, cls := .wrapperFunc, group := .runGroup, inp := [tNoType], ret := [tUnused], nonFinal := true,
